@@ -374,6 +374,12 @@ def prove(assumptions, goal, timeout_s=10, opts=None, rounds=2):
     if res == "unsat":
         return Verdict(PROVED, backend, ms)
     if res == "sat":
+        from . import sigma
+        if any(n in sigma.BY_DECL for n in axioms.collect_apps(formulas)):
+            # Σ-functions are axiomatised by finitely many instances only: a model of the instances need not be a model of
+            # the sums.  Not a refutation: the model is kept as a hint for the replay, the verdict is UNDECIDED.
+            return Verdict(UNDECIDED, backend, ms, model=model,
+                           reason="sat modulo the generated Σ-axiom instances only (the model may be spurious)")
         return Verdict(REFUTED, backend, ms, model=model, reason="sat")
     return Verdict(UNDECIDED, backend, ms, reason=res)
 
